@@ -24,7 +24,8 @@ class LifeWorld(World):
         self.cl_obs: list = []
         self.rchan = None
         self.end_body = False
-        self.cnt = {s: {"ends": 0, "cbgot": 0, "rgot": 0, "eof": False} for s in "LR"}
+        self.fail_body = False
+        self.cnt = {s: {"ends": 0, "cbgot": 0, "rgot": 0, "eof": False, "rerr": 0} for s in "LR"}
         self.cl_error = ""
 
     # the body of the remote_exec: park until told to end (the ops of side R are applied to its channel by the driver)
@@ -34,6 +35,8 @@ class LifeWorld(World):
         try:
             channel = None
             self.s.yield_(("gate", "end_body"), lambda: self.end_body)
+            if self.fail_body:
+                raise RuntimeError("BOOM in body")
         finally:
             self.open_bodies -= 1
 
@@ -59,9 +62,10 @@ class LifeWorld(World):
         c = self.cnt[side]
         return {"alive": alive, "reg": cid in factory._channels,
                 "cb": "none" if ent is None else ("plain" if ent[1] is gateway_base.NO_ENDMARKER_WANTED else "end"),
-                "ends": c["ends"], "cbgot": c["cbgot"], "rgot": c["rgot"], "eof": c["eof"],
+                "ends": c["ends"], "cbgot": c["cbgot"], "rgot": c["rgot"], "eof": c["eof"], "rerr": c["rerr"],
                 "closed": bool(alive and chan._closed), "rc": bool(alive and chan._receiveclosed.is_set()),
-                "hasq": bool(alive and chan._items is not None), "queue": q}
+                "hasq": bool(alive and chan._items is not None), "queue": q,
+                "errs": len(chan._remoteerrors) if alive else 0}
 
     def run_thread(self, th):
         try:
@@ -92,12 +96,15 @@ class LifeWorld(World):
                     self.cnt[side]["rgot"] += 1
                 except EOFError:
                     self.cnt[side]["eof"] = True
+                except gateway_base.RemoteError:
+                    self.cnt[side]["rerr"] += 1
             elif name == "close":
                 chan.close()
             elif name == "drop":
                 lchan = None
-            elif name == "bodyend":
+            elif name in ("bodyend", "bodyfail"):
                 self.rchan = None
+                self.fail_body = name == "bodyfail"
                 self.end_body = True
             else:
                 raise ValueError(name)
